@@ -2,7 +2,7 @@
 From C06 Require Import Model Spec Proofs ProofsRef ProofsMap.
 
 (* (1) A function that is not destructive (list, cons, list*, cdr, nthcdr, member, last, butlast, subseq, copy-list,
-   reverse, append, add, push, pop, remove/delete, mapcar, nconc as repaired) never changes any list other than
+   reverse, append, add, push, pop, remove/delete, remove-if/delete-if with :count and :from-end, mapcar, nconc as repaired) never changes any list other than
    the variable it is stored into: every state, every operation of the class, no guard (w only has to be a
    well-formed variable). *)
 Theorem C06_nondestructive_frame : forall st o cap w,
@@ -164,3 +164,14 @@ Theorem C06_map_example :
    [Some ([1; 4; 7]%Z, false, 3, 0); Some ([0; 5]%Z, false, 4, 0); Some ([3; 6; 8; 9]%Z, false, 5, 0)]).
 Proof. exact map_example. Qed.
 Print Assumptions C06_map_example.
+
+(* (10) remove-if / delete-if (one Go function: RemoveIf embeds DeleteIf) belong to the non-destructive class of (1),
+   to the fresh-result class of (5) and to the operations of the refinement (6).  Their value: without :count the
+   elements that do not satisfy the predicate, in order, whichever end the scan starts from. *)
+Theorem C06_remove_if_value : forall p fe l, remove_if p None fe l = filter (fun y => negb (holds p y)) l.
+Proof. exact remove_if_filter. Qed.
+Print Assumptions C06_remove_if_value.
+Theorem C06_remove_if_frame : forall st p n fe src dst cap w,
+  w <> dst -> wf_var st w -> vcontents (step st (ORemoveIf p n fe src dst) cap) w = vcontents st w.
+Proof. intros st p n fe src dst cap w. exact (nondestructive_frame st (ORemoveIf p n fe src dst) cap w eq_refl). Qed.
+Print Assumptions C06_remove_if_frame.
